@@ -325,7 +325,7 @@ def write_case(case, d):
     style = L.STYLES[case.style]
     specs = L.line_specs(ref, genes, style)
     path = Path(d) / 'annotation.gtf'
-    path.write_text(L.gtf_text(ref.chrom, specs))
+    path.write_text(L.gtf_text(ref.chrom, specs, utf8=bool(style.get('utf8'))), encoding='utf-8')
     return ref, genes, style, specs, path
 
 
@@ -504,7 +504,7 @@ def grammar_cases(tier, seed):
 
 def style_cases(tier):
     lens = (1, 3) if tier == 'quick' else (1, 2, 3, 5)
-    for style in ('S1', 'S2', 'S3'):
+    for style in ('S1', 'S2', 'S3', 'S4'):
         for strand in (1, -1):
             for ex, it in L.structures(lens=lens):
                 Lt = sum(ex)
@@ -1084,7 +1084,7 @@ def main():
         run_cases(run, 'grammar', cases, contexts=sorted({c.ctx for c in cases}))
         run.sample(dict(kind='case', example=cases[len(cases) // 2].spec()))
     if run.want('styles'):
-        run_cases(run, 'styles', list(style_cases(run.tier)), styles='S1,S2,S3')
+        run_cases(run, 'styles', list(style_cases(run.tier)), styles='S1,S2,S3,S4')
     if run.want('intervals'):
         specs = [c.spec() for c in interval_cases(run.tier)]
         res = vlib.pmap(interval_job, [specs[i:i + 4] for i in range(0, len(specs), 4)], jobs=run.jobs, chunk=1)
